@@ -3,6 +3,8 @@ package main
 import (
 	"encoding/json"
 	"fmt"
+	"go/token"
+	"go/types"
 	"os"
 	"sort"
 	"strings"
@@ -95,6 +97,36 @@ func runSurvey(e *Engine, what string) {
 			return
 		}
 		e.dumpAnchors(names)
+	case "usub":
+		// unsigned `x - const` not dominated by a guard on x (cross-reference only)
+		for _, fn := range e.ScopeFuncs() {
+			p := fnPkg(fn)
+			if p == nil || !inModule(p) {
+				continue
+			}
+			forEachInstr(fn, func(in ssa.Instruction) {
+				b, ok := in.(*ssa.BinOp)
+				if !ok || b.Op != token.SUB {
+					return
+				}
+				bt, ok := b.Type().Underlying().(*types.Basic)
+				if !ok || bt.Info()&types.IsUnsigned == 0 {
+					return
+				}
+				k, ok := b.Y.(*ssa.Const)
+				if !ok || k.Value == nil {
+					return
+				}
+				x := b.X
+				same := func(v ssa.Value) bool { return v == x || sameExprV(x)(v) }
+				g1, _ := e.guardedOnAllPaths(in, reqCmp("", ">=", same, func(v ssa.Value) bool { _, isC := v.(*ssa.Const); return isC }))
+				g2, _ := e.guardedOnAllPaths(in, reqCmp("", ">", same, anyV()))
+				g3, _ := e.guardedOnAllPaths(in, reqCmp("", "!=", same, intConstV(0)))
+				if !g1 && !g2 && !g3 {
+					fmt.Printf("%s: %s: %s - %s unguarded\n", e.ipos(in), fname(fn), e.describeValue(x), k.Value.ExactString())
+				}
+			})
+		}
 	case "err":
 		// error discipline over the whole module (cross-reference only)
 		r := &Report{Prop: "survey", e: e, cfg: "survey"}
